@@ -2,6 +2,7 @@
 # seedcheck.sh <seed dir or id> [property ids...] : apply the seeded change to /repo, run the checks, undo it.
 sd="$1"; shift
 [ -d "$sd" ] || sd="/verif/seeded/$sd"
+sd=$(cd "$sd" && pwd)
 id=$(basename "$sd" | cut -c1-3)
 props="${@:-$id}"
 cd /verif
